@@ -90,6 +90,20 @@ fn main() {
             let vs = read_ndjson(args.val("--in").expect("--in"));
             r_pp::replay_pair(&vs, &rep, threads, seed);
         }
+        "replay-obj" => {
+            let vs = read_ndjson(args.val("--in").expect("--in"));
+            let o = r_mm::Opts {
+                lifts: args.num("--lifts", 2) as usize,
+                groups: r_mm::Groups::parse("objects"),
+                seed,
+                force: args.val("--force").unwrap_or("avx2").to_string(),
+            };
+            r_mm::replay_obj(&vs, &rep, &o, threads);
+        }
+        "replay-alloc-bytes" => {
+            let vs = read_ndjson(args.val("--in").expect("--in"));
+            r_iter::alloc_probe(&vs, &rep, threads, seed);
+        }
         "replay-iter" => {
             let vs = read_ndjson(args.val("--in").expect("--in"));
             let o = r_iter::Opts {
